@@ -452,6 +452,99 @@ impl BigUint {
 //@ end
 }
 
+//@ extract src/bigint.rs :: struct BigInt
+pub struct BigInt {
+    sign: Sign,
+    data: BigUint,
+}
+//@ end
+//@ include prelude/bigint_view.rs
+impl BigInt {
+//@ stub i_core/from_biguint
+//@ stub i_core/is_negative
+
+//@ extract src/bigint.rs :: impl BigInt :: fn from_radix_be props=C06,C14 label=bigint_from_radix_be
+    pub fn from_radix_be(sign: Sign, buf: &[u8], radix: u32) -> /*+*/(r: /*-*/Option<BigInt>/*+*/)/*-*/
+//+{
+        requires !mp() ==> 2 <= radix <= 256
+        ensures mp() ==> 2 <= radix <= 256,
+            r is None <==> convert::has_bad_digit(buf@, radix),
+            r is Some ==> r.unwrap().wfi() && r.unwrap().iv() == sgn(sign) * (valr(rev8(buf@), radix as nat, buf@.len()) as int),
+//+}
+    {
+        let u = BigUint::from_radix_be(buf, radix)?;
+        Some(BigInt::from_biguint(sign, u))
+    }
+//@ end
+
+//@ extract src/bigint.rs :: impl BigInt :: fn from_radix_le props=C06,C14 label=bigint_from_radix_le
+    pub fn from_radix_le(sign: Sign, buf: &[u8], radix: u32) -> /*+*/(r: /*-*/Option<BigInt>/*+*/)/*-*/
+//+{
+        requires !mp() ==> 2 <= radix <= 256
+        ensures mp() ==> 2 <= radix <= 256,
+            r is None <==> convert::has_bad_digit(buf@, radix),
+            r is Some ==> r.unwrap().wfi() && r.unwrap().iv() == sgn(sign) * (valr(buf@, radix as nat, buf@.len()) as int),
+//+}
+    {
+        let u = BigUint::from_radix_le(buf, radix)?;
+        Some(BigInt::from_biguint(sign, u))
+    }
+//@ end
+
+//@ extract src/bigint.rs :: impl BigInt :: fn to_radix_be props=C06,C14 label=bigint_to_radix_be
+    pub fn to_radix_be(&self, radix: u32) -> /*+*/(r: /*-*/(Sign, Vec<u8>)/*+*/)/*-*/
+//+{
+        requires self.wfi(), !mp() ==> 2 <= radix <= 256
+        ensures mp() ==> 2 <= radix <= 256, r.0 == self.sg(), r.1@.len() >= 1, convert::digits_below(r.1@, radix),
+            valr(rev8(r.1@), radix as nat, r.1@.len()) == self.mag().v(), self.mag().v() == 0 ==> r.1@ =~= seq![0u8], self.mag().v() != 0 ==> r.1@[0] != 0
+//+}
+    {
+        (self.sign, self.data.to_radix_be(radix))
+    }
+//@ end
+
+//@ extract src/bigint.rs :: impl BigInt :: fn to_radix_le props=C06,C14 label=bigint_to_radix_le
+    pub fn to_radix_le(&self, radix: u32) -> /*+*/(r: /*-*/(Sign, Vec<u8>)/*+*/)/*-*/
+//+{
+        requires self.wfi(), !mp() ==> 2 <= radix <= 256
+        ensures mp() ==> 2 <= radix <= 256, r.0 == self.sg(), r.1@.len() >= 1, convert::digits_below(r.1@, radix),
+            valr(r.1@, radix as nat, r.1@.len()) == self.mag().v(), self.mag().v() == 0 ==> r.1@ =~= seq![0u8], self.mag().v() != 0 ==> r.1@[r.1@.len() - 1] != 0
+//+}
+    {
+        (self.sign, self.data.to_radix_le(radix))
+    }
+//@ end
+
+//@ extract src/bigint.rs :: impl BigInt :: fn to_str_radix rules=R0,R1u props=C06,C14,C15 label=bigint_to_str_radix
+    pub fn to_str_radix(&self, radix: u32) -> String
+//+{
+        requires self.wfi(), !mp() ==> 2 <= radix <= 36
+        ensures mp() ==> 2 <= radix <= 36
+//+}
+    {
+        let mut v = to_str_radix_reversed(&self.data, radix);
+
+        if self.is_negative() {
+            v.push(b'-');
+        }
+//+{
+        let ghost v0 = v@;
+//+}
+
+        v.reverse();
+//+{
+        proof {
+            assert forall|i: int| 0 <= i < v@.len() implies v@[i] < 128 by {
+                assert(v@[i] == v0[v0.len() - 1 - i]);
+                if v0.len() - 1 - i < v0.len() - 1 || !(self.sign == Minus) { assert(convert::is_ascii_digit_lc(v0[v0.len() - 1 - i])); }
+            }
+        }
+//+}
+        __from_utf8_unchecked(v)
+    }
+//@ end
+}
+
 } // mod u
 } // verus!
 fn main() {}
